@@ -145,7 +145,8 @@ def _create_outside_package_class(
     module_dir = Path(out_path / module_path)
     module_dir.mkdir(parents=True, exist_ok=True)
 
-    file_path = Path(module_dir / f"{module_name}.sdsstub")
+    # Like the stub of a module of the package, the file is named without the leading underscores of the module
+    file_path = Path(module_dir / f"{module_name.lstrip('_')}.sdsstub")
     if written_stub_files and file_path.resolve() in written_stub_files:
         # The "class" is a name of a module of the package itself that is no class (a NewType, an alias of a class):
         # the stub of that module was written in this run and must not be replaced
